@@ -18,7 +18,7 @@ def run(rep, tier, seed, rng):
             rep.violation("model and implementation disagree: " + "; ".join(r["dis"])[:400], gen_common.replay_data(r), found_input=False)
             continue
         if r["impl_parsed"] and r["impl"]["rc"] == 0:
-            for clause, src, ds in mc.download_order(r["impl_parsed"], c[0]):
+            for clause, src, ds in mc.download_order(r["impl_parsed"], c[0], builds=r["impl"]["builds"]):
                 ndis += 1
                 rep.violation("a source inside a download directory is compiled without waiting for the download: %s (directory %s)" % (src, ds),
                               gen_common.replay_data(r, clause=clause), found_input=True)
